@@ -9,8 +9,8 @@ OrdersAll == {"llur", "urll", "ullr", "lrul"}
 Quarters  == {90 * k : k \in -9..9}
 Oblique   == {1, 45, 89, 91, 179, 181, 269, 271, 359, 361, -1, -45, -89, -91, -359, -361, 3599, -3601}
 RotatesSmall == Quarters \cup {1, 45, 91, -45, 359, 361, -361}
-RotatesFull  == {90 * k : k \in -40..40} \cup Oblique
+RotatesFull  == {90 * k : k \in -12..12} \cup Oblique
 MarksSmall == {<<1, 1>>, <<0, 2>>}
-MarksFull  == {<<0, 0>>, <<1, 1>>, <<0, 2>>, <<2, 1>>, <<1, 0>>}
+MarksFull  == {<<0, 0>>, <<1, 1>>, <<0, 2>>}
 NoDev == {}
 =============================================================================
